@@ -627,7 +627,7 @@ def large_h(desc):
 
 class C17(core.Check):
     pid = "C17"
-    gen_modules = []
+    gen_modules = ["attrspec_escape"]       # translator module of property C04, used read-only
     model_targets = ["theories/Model/AttrFlow.vo", "theories/Model/TermRef.vo", "theories/Model/DrawScreen.vo",
                      "theories/Model/AttrFlowE2E.vo"]
     prop_file = "theories/Properties/C17.v"
@@ -658,7 +658,8 @@ class C17(core.Check):
         "bright-is-bold and bright-is-blink on/off); palette_resolves_full and palette_name_to_terminal (every history "
         "of register_palette_entry / aliases / set_terminal_properties); undefined_name_defaults; END TO END, composed with property C04's proved model of Screen.draw_screen and its "
         "reference terminal (Model/DrawScreen.v, TermRef.v, PaintSpec.v, theorem draw_paints, imported read-only): "
-        "attrspec_to_escape_models_agree, draw_screen_sends_resolved_escape (after every palette history draw_screen's "
+        "attrspec_to_escape_is_translated_source (this model's _attrspec_to_escape equals the function py2v translates "
+        "from _raw_display_base.py on every run), attrspec_to_escape_models_agree, draw_screen_sends_resolved_escape (after every palette history draw_screen's "
         "model sends for a name exactly the escape this model keeps in _pal_escape), expected_cells_carry_run_pens and "
         "markup_to_terminal (every markup, text, layout, width, palette history and synced screen/terminal state: after "
         "draw_screen every terminal cell is visually equal to a cell whose pen is the palette entry, at the active depth, "
@@ -766,6 +767,7 @@ class C17(core.Check):
         # the premise canvas_row_reads of the end-to-end theorem: as many text bytes as attribute positions, and
         # content() gives every column the attribute of the first byte of the character occupying it
         self._reads = True
+        split_char = False
         try:
             for bs, arow, crow_ in zip(canv._text, canv._attr, canv.content()):
                 pos = rle_expand([[id_of(a), n] for a, n in arow])
@@ -773,6 +775,8 @@ class C17(core.Check):
                     self._reads = False
                 want, i = [], 0
                 for ln, wd in row_chars(bs):
+                    if len(set(map(repr, pos[i:i + ln]))) > 1:
+                        split_char = True          # a bytes text tagged in the middle of a character
                     want += [pos[i] if i < len(pos) else None] * wd
                     i += ln
                 got = []
@@ -782,6 +786,8 @@ class C17(core.Check):
                     self._reads = False
         except Exception:
             self._reads = False
+        if split_char:
+            self._reads = None
         return {"rows": [[[id_of(a), n] for a, n in line] for line in canv._attr]}, rows
 
     def impl_text(self, case):
@@ -2105,7 +2111,9 @@ class C17(core.Check):
                 inc("wrap:" + case["wrap"])
                 inc("align:" + case["align"])
         if case["kind"] in ("text", "layout") and "rows" in res:
-            inc("e2e-premise canvas_row_reads:" + ("holds" if getattr(self, "_reads", False) else "FAILS"))
+            r_ = getattr(self, "_reads", False)
+            inc("e2e-premise canvas_row_reads:" + ("holds" if r_ else "FAILS" if r_ is False else
+                                                   "n/a (bytes text tagged inside a multi-byte character)"))
         if case["kind"] in ("text", "layout") and "rows" in res and getattr(self, "_short", 0):
             inc("obs:content_row_narrower_than_canvas(zero-length attribute run)")
         for sig, n in self._sig_count.items():
